@@ -224,7 +224,38 @@ def gen_tree(rng, depth, d0, raw_ok=False):
         cs.append(gen_tree(rng, depth - 1, d0, raw_ok=raw))
     if how == "rop" and not cs[0].get("raw"):
         how = "op"
+    if n >= 2 and rng.random() < 0.25:
+        # a sibling that is indistinguishable from its neighbour for the approximate BitLengthSet equality
+        # (same min, max, residues modulo 32) but denotes a different set
+        tw = approx_twin(rng, cs[0])
+        if tw is not None:
+            cs[1] = tw
     return {"o": o, "cs": cs, "how": how}
+
+
+def approx_twin(rng, n):
+    import copy
+
+    t = copy.deepcopy(n)
+    leaves = [x for x in postorder(t) if x["o"] == "leaf" and len(x["v"]) >= 3]
+    if leaves:
+        lf = rng.choice(leaves)
+        j = rng.randrange(1, len(lf["v"]) - 1)
+        for delta in (32, 64, -32, 96):
+            nv = lf["v"][j] + delta
+            if lf["v"][0] < nv < lf["v"][-1] and nv not in lf["v"]:
+                lf["v"] = sorted(lf["v"][:j] + [nv] + lf["v"][j + 1:])
+                t["raw"] = False
+                return t
+    if n["o"] == "leaf" and len(n["v"]) >= 2 and n["v"][-1] - n["v"][0] > 64:
+        mid = n["v"][0] + 32 * rng.randrange(1, (n["v"][-1] - n["v"][0]) // 32 + 1)
+        if n["v"][0] < mid < n["v"][-1] and mid not in n["v"]:
+            t["v"] = sorted(n["v"] + [mid])
+            base = dict(n, v=sorted(n["v"] + [mid + 32 if mid + 32 < n["v"][-1] else mid - 32]))
+            if len(set(base["v"])) == len(t["v"]) and base["v"][0] == t["v"][0] and base["v"][-1] == t["v"][-1]:
+                t["raw"] = False
+                return t
+    return None
 
 
 def gen_case(rng, tier):
@@ -308,6 +339,16 @@ def corpus():
     for a, d in [(3, 8), (8, 3), (7, 5), (64, 96), (5, 64)]:
         t = {"o": "pad", "a": a, "raw": False, "c": {"o": "rrep", "k": 2 ** 32, "c": {"o": "leaf", "v": [1, 6], "how": "set", "raw": False}}}
         out.append({"tree": t, "queries": [[2, ["mod", d], False], [2, ["aligned", a], False], [1, ["mod", d], False]]})
+    # operands that collide under the approximate BitLengthSet equality (min, max, residues modulo 32) but differ as sets
+    def lf(vs):
+        return {"o": "leaf", "v": vs, "how": "set", "raw": False}
+    for a, b in [([0, 8, 64], [0, 40, 64]), ([0, 32, 128], [0, 64, 128]), ([1, 2, 70], [1, 34, 70])]:
+        for how in ("static", "op", "rop"):
+            for o in ("uni", "cat"):
+                t = {"o": o, "cs": [lf(a), lf(b)], "how": how, "raw": False}
+                out.append({"tree": t, "queries": [[2, ["mod", 64], False], [2, ["exp"], False], [2, ["len"], False], [2, ["mod", 96], False], [0, ["exp"], False], [1, ["exp"], False]]})
+    big = {"o": "uni", "how": "op", "raw": False, "cs": [{"o": "rrep", "k": 2 ** 62, "c": lf([64])}, {"o": "rrep", "k": 2 ** 63, "c": lf([32])}]}
+    out.append({"tree": big, "queries": [[4, ["aligned", 64], False], [4, ["mod", 64], False], [4, ["max"], False], [1, ["aligned", 64], False], [3, ["aligned", 64], False]]})
     return out
 
 
@@ -355,8 +396,23 @@ def run_impl(cases):
             return len(b)
         raise ValueError(k)
 
+    import rt
+
+    def one(case):
+        return _one_case(case, BitLengthSet, raw_value, answer)
+
     out = []
     for case in cases:
+        try:
+            out.append(rt.with_alarm(30, one, case))
+        except rt.CaseTimeout:
+            out.append({"error": "Timeout", "text": "the case did not finish within 30 s (predicted cost is below a second)"})
+    return out
+
+
+def _one_case(case, BitLengthSet, raw_value, answer):
+    out = []
+    if True:
         nodes = postorder(case["tree"])
         ids = {id(n): i for i, n in enumerate(nodes)}
         early = {}
@@ -394,7 +450,7 @@ def run_impl(cases):
             out.append({"answers": {str(k): v for k, v in answers.items()}})
         except Exception as ex:  # pylint: disable=broad-except
             out.append({"error": type(ex).__name__, "text": str(ex)[:200]})
-    return out
+    return out[0]
 
 
 # ----------------------------------------------------------------------------------------------------------------
